@@ -9,6 +9,7 @@ THEOREMS = ['C08_init', 'C08_history_inv', 'C08_alloc_inv', 'C08_free_inv', 'C08
             'C08_certificate_needs_reads_defined', 'C08_build_passes_certificate_reuse', 'C08_build_total_reuse',
             'C08_reuse_nonvacuous', 'C08_build_passes_certificate_all', 'C08_build_total_all', 'C08_all_options_nonvacuous', 'C08_option_hypotheses_checkable',
             'C08_heap_source_is_model', 'C08_heap_source_exact', 'C08_heap_source_precondition_needed', 'C08_heap_source_nonvacuous']
+THEOREMS += ['C08_simops_source_prefix_partial', 'C08_simops_alloc_section_pinned', 'C08_simops_source_prefix_wf_partial']
 
 
 def gen_map_case(rng):
@@ -31,6 +32,7 @@ def run(ck):
     ck.trust('translator translate/gen_heap.py (fail-closed Python-ast translation of Heap.__init__ / alloc / free into a state-passing '
              'Gallina let-chain; vocabulary Model/HeapSrcLib.v: dict = sorted association list, bisect / insort on sorted lists, '
              'Python integers that stay non-negative); its output is additionally run against the real class on every history')
+    ok_src = sc.translate_simops(ck)
     proved, _ = ck.prove('C08', THEOREMS)
     if not proved:
         core.coq_make(core.support_targets())     # the models must exist for the correspondence even when a proof broke
@@ -86,6 +88,8 @@ def run(ck):
     ck.obligation(f'Coq model of SimOps.__init__ (ops, levels, reference counts, allocation through the Heap model, aliasing) = '
                   f'implementation on {len(so_cases)} circuits x capacity vectors x options', ran and not bad, 'correspondence',
                   f'failing cases {bad[:8]}')
+    if ok_src:
+        sc.run_source_corr(ck, random.Random(ck.seed * 7919 + 108), ck.scale(16, 300), 'memory map')
     sc.run_certs(ck, cert_circs, 'memory map')
     sc.run_domain(ck, [x[0] for x in cert_circs], 'memory map')
     ck.rule('allocator: random alloc/free histories (mixed/LIFO/FIFO/bursts/same-size; sizes 1..64) compared after every step + '
